@@ -5,7 +5,9 @@
    case   := (1 cref text ftab utab)            one field through cls.build / validate / str
            | (2 annot line mode (lineno)? ftab utab)   MafRecord.from_line under a built layout
            | (3 cref pyval)                      an API-built column: validate / str
-           | (4)                                 the built layouts (names and class MROs) *)
+           | (4)                                 the built layouts (names and class MROs)
+           | (6 annot (slot ...) mode)           MafWriter.__iadd__ on an API-built record: validate against the
+                                                 layout, then str(record); slot := () | (name (idx)? cref pyval) *)
 From Coq Require Import String Ascii.
 From MafVerif Require Import lib.Base lib.Str gen.GenClasses model.Classes model.Columns model.Layouts
      model.RecordOps model.ColRecord.
@@ -131,6 +133,37 @@ Definition layouts_case : sexp :=
                                      end]) (l_cols l)]) ls]
   end.
 
+Definition dec_slot (s : sexp) : option (option ccol) :=
+  match s with
+  | L [] => Some None
+  | L [n; i; c; v] =>
+      match as_str n, as_opt as_Z i, dec_cref 8 c, dec_val 6 v with
+      | Some n', Some i', Some c', Some v' =>
+          Some (Some {| ckey := n'; cidx := i'; cval := {| v_cls := c'; v_val := v' |} |})
+      | _, _, _, _ => None
+      end
+  | _ => None
+  end.
+
+(* the record as the API left it: slots in order, name map = occupied slots in order *)
+Definition rec_of_slots (sl : list (option ccol)) : crec :=
+  {| rdict := flat_map (fun o => match o with Some c => [(ckey c, c)] | None => [] end) sl; rlist := sl |}.
+
+Definition write_case (annot : string) (sl : list (option ccol)) (m : mode) : sexp :=
+  match built_layouts with
+  | Raise e => L [A 2; s_of_exn e]
+  | Ok ls =>
+      match find_layout ls annot with
+      | None => L [A 3]
+      | Some l =>
+          let r := rec_of_slots sl in
+          match rec_validate class_table m (Some (l_cols l)) None [] r with
+          | Raise e => L [A 1; s_of_exn e]
+          | Ok errs => L [A 0; s_of_list enc_err errs; enc_res s_of_str (rec_str class_table r)]
+          end
+      end
+  end.
+
 Definition dispatch (s : sexp) : sexp :=
   match s with
   | L [A 1; c; t; ft; ut] =>
@@ -150,5 +183,10 @@ Definition dispatch (s : sexp) : sexp :=
       | _, _ => s_bad
       end
   | L [A 4] => layouts_case
+  | L [A 6; an; sl; m] =>
+      match as_str an, as_listof dec_slot sl, dec_mode m with
+      | Some an', Some sl', Some m' => write_case (l2s an') sl' m'
+      | _, _, _ => s_bad
+      end
   | _ => s_bad
   end.
